@@ -592,7 +592,11 @@ class Twist3(SMTwist):
         :seealso: :func:`~spatialmath.base.transforms3d.troty`
         :SymPy: supported
         """
-        return cls([np.r_[0,0,0,0,x,0] for x in base.getvector(base.getunit(theta, unit=unit))])
+        angles = base.getvector(base.getunit(theta, unit=unit))
+        if t is not None:
+            # rotation followed by the translation t, as SE3.Ry(theta, t=t)
+            return cls([base.trlog(base.troty(x, t=t), twist=True) for x in angles])
+        return cls([np.r_[0,0,0,0,x,0] for x in angles])
 
     @classmethod
     def Rz(cls, theta, unit='rad', t=None):
@@ -623,7 +627,11 @@ class Twist3(SMTwist):
         :seealso: :func:`~spatialmath.base.transforms3d.trotz`
         :SymPy: supported
         """
-        return cls([np.r_[0,0,0,0,0,x] for x in base.getvector(base.getunit(theta, unit=unit))])
+        angles = base.getvector(base.getunit(theta, unit=unit))
+        if t is not None:
+            # rotation followed by the translation t, as SE3.Rz(theta, t=t)
+            return cls([base.trlog(base.trotz(x, t=t), twist=True) for x in angles])
+        return cls([np.r_[0,0,0,0,0,x] for x in angles])
 
     @classmethod
     def Rand(cls, *, xrange=(-1, 1), yrange=(-1, 1), zrange=(-1, 1), N=1):  # pylint: disable=arguments-differ
